@@ -36,9 +36,11 @@ ListMatches(s) ==
         /\ cur = s.cur /\ Len(list) = s.n
         /\ \A i \in 1..Len(list) : list[i].idx = s.idxs[i] /\ Len(list[i].keys) = s.nkeys[i]
 QueueMatches(s) ==
-    ("queue" \in DOMAIN s) =>
-        /\ [i \in 1..Len(queue) |-> queue[i].id] = s.queue
-        /\ marked = ToSet(s.marked)
+    /\ ("queue" \in DOMAIN s) =>
+           /\ [i \in 1..Len(queue) |-> queue[i].id] = s.queue
+           /\ marked = ToSet(s.marked)
+    /\ ("curIdx" \in DOMAIN s) =>                 \* what GetCurrentGuardianSet returns at that moment
+           /\ cur = s.curIdx /\ cur + 1 <= Len(list) /\ list[cur + 1].idx = cur /\ Len(list[cur + 1].keys) = s.curKeys
 
 OutClass(o) == IF o \in {"invalid", "lookup-failed", "full"} THEN "error" ELSE o
 
@@ -91,17 +93,19 @@ TraceInit ==
     /\ enq = {} /\ proc = <<>>
     /\ \E i \in Starts : l = i + 1 /\ TLCSet(Trace[i].t, i + 1)
 
-\* With Canon = TRUE a critical section runs to its end before anything else happens (what the lock holder does
-\* between acquire and release is invisible to every other process of the intended design, and the calls / returns
-\* of the others commute with it), and the bookkeeping step after an append is taken at once.  Every explanation
-\* found this way is one of the unrestricted specification; traces that stay unexplained are validated again with
-\* Canon = FALSE before anything is reported.
+\* With Canon = TRUE every call takes effect atomically at some moment between its Call and its Ret line (the
+\* usual linearizability search): once a process has taken the first internal step of a call, only that process moves
+\* until the call's result is determined.  Every explanation found this way is one of the unrestricted specification,
+\* in which the steps of concurrent calls interleave; traces that stay unexplained are validated again with
+\* Canon = FALSE (all interleavings) before anything is reported.
+Done(pr)       == pr.pc = "idle" \/ pr.pc = "pret" \/ (pr.pc = "ret" /\ pr.kind # "push")
+NotStarted(pr) == (pr.pc = "rd1" /\ ~pr.second) \/ (pr.pc = "ap1" /\ pr.kind = "append")
+Mid(p)         == ~Done(proc[p]) /\ ~NotStarted(proc[p])
+
 TraceNext ==
     /\ ~AtEnd
-    /\ IF Canon /\ lock # Nil
-       THEN Internal(lock) /\ UNCHANGED l
-       ELSE IF Canon /\ \E p \in DOMAIN proc : proc[p].pc = "ap5"
-       THEN (\E p \in DOMAIN proc : Ap_Done(p)) /\ UNCHANGED l
+    /\ IF Canon /\ \E p \in DOMAIN proc : Mid(p)
+       THEN (\E p \in DOMAIN proc : Mid(p) /\ Internal(p)) /\ UNCHANGED l
        ELSE \/ Logged(Trace[l]) /\ l' = l + 1
             \/ Silent /\ UNCHANGED l
 
